@@ -208,12 +208,17 @@ prop("C17", "Resume bookkeeping maintenance never loses the live resume position
      "non-trivial = distinct case with checkpoints in >= 2 databases, an existing position, and a crash strictly inside the operation. "
      "Oracle: P0 = position a clean start with the old configuration finds on the initial state; P1 = position a clean start with the new configuration (UpdateCheckpoint + GetCheckpoint, as newOutput/StartPoint do) finds on the crashed state (on a clone). P0 none => anything; else P1 exists, P1.offset >= P0.offset and P1.db == P0.db. gc: the newest entry of every id a source still reports survives."
      " Second unit (switching the bidirectional recovery format): the initial state is written by a real bidirectional link that ran in one replay mode (sync: latest records; pipeline / parallel: frontier + commit journal) - initial full sync, 0-5 committed units (single / transactional), stop with or without a frontier flush, optionally a later full resynchronisation; the operation is the next start-up with another replay mode (namespace migration when the recovery family changes); every prefix of its requests is executed and followed by a clean start in the new mode, which must not fail and must find a position >= the one a start in the old mode finds on the initial state.",
+     " One case in three adds a second source (another shard of the same link, replication ids S/T, reported by a second source double) whose position lives under the same checkpoint key: the operation is carried out for the first source only and the second source's clean start must still find its position (same three comparisons)."
+     " Third unit (SetRunId): the move to a new replication id as the running tool does it - RedisOutput.SetRunId with its own repetitions (about 4 s apart); the target connection dies after every prefix of the requests (the target is back 500 ms later), SetRunId finishes by itself, then the clean start with ids [new, previous] is judged; all prefixes of a case run concurrently.",
      [{"pkg": "c17", "test": "TestC17",
        "quick": {"checks": 640, "shards": 16, "timeout": 900},
        "thorough": {"checks": 20000, "shards": 16, "timeout": 7200}},
       {"pkg": "c17", "test": "TestC17Bisync",
        "quick": {"checks": 96, "shards": 16, "timeout": 900},
-       "thorough": {"checks": 3200, "shards": 16, "timeout": 7200}}],
+       "thorough": {"checks": 3200, "shards": 16, "timeout": 7200}},
+      {"pkg": "c17", "test": "TestC17SetRunId",
+       "quick": {"checks": 32, "shards": 16, "timeout": 900, "shrinktime": "60s"},
+       "thorough": {"checks": 960, "shards": 16, "timeout": 7200}}],
      BASE_ASSUME + ["fake/ interpreting double (HSET/HGET/HGETALL/HDEL/EXISTS/INFO keyspace), crash = connection death after the k-th request", "gc reads the wall clock: generated ages keep >= 2 minutes distance from the threshold"])
 
 prop("C06", "Each source (re)connection continues the stream gap-free or takes a snapshot", "exploration",
